@@ -124,11 +124,23 @@ def r2_one_registration(chk):
         rnodes = set(cfg.node_of(common.stmt_of(r)) for r in c.regs)
         key = 'IntermediateCodeGen.%s' % c.name
         if tag == 'typeDeclaration':
-            g1 = [norm(t) for r in c.regs for t, b in ir.guards_of(common.stmt_of(r), c.fn)]
+            def guards_with_early_exits(call, fn_):
+                # `if not X: return` at the top of the function guards everything behind it just as `if X:` would
+                st = common.stmt_of(call)
+                pre = []
+                for top in fn_.body:
+                    if top.lineno >= st.lineno:
+                        break
+                    if isinstance(top, ast.If) and not top.orelse and len(top.body) == 1 and \
+                            isinstance(top.body[0], ast.Return) and top.body[0].value is None and \
+                            isinstance(top.test, ast.UnaryOp) and isinstance(top.test.op, ast.Not):
+                        pre.append(norm(top.test.operand))
+                return pre + [norm(t) for t, b in ir.guards_of(st, fn_)]
+            g1 = [g for r in c.regs for g in guards_with_early_exits(r, c.fn)]
             o, sfn = sci.find_method(stbl['typeDeclaration'])
             sregs = [n for n in walk_no_nested(sfn) if isinstance(n, ast.Call) and isinstance(n.func, ast.Attribute)
                      and n.func.attr == 'regSym']
-            g2 = [norm(t) for r in sregs for t, b in ir.guards_of(common.stmt_of(r), sfn)]
+            g2 = [g for r in sregs for g in guards_with_early_exits(r, sfn)]
             chk.ob('C03.R2', key + '/registration-guard', g1 == g2 and len(c.regs) == 1, where(mod, c.fn),
                    'registered under %s, symbol table registers under %s' % (g1, g2))
         else:
